@@ -26,6 +26,7 @@ pub mod c03;
 pub mod c06;
 pub mod c07;
 pub mod c11;
+pub mod c12;
 pub mod c14;
 pub mod c15;
 pub mod c16;
@@ -117,6 +118,7 @@ pub fn select(property: &str, tier: Tier, seed: u64) -> Vec<Case> {
         "C06" => c06::cases(tier, seed),
         "C07" => c07::cases(tier, seed),
         "C11" => c11::cases(tier, seed),
+        "C12" => c12::cases(tier, seed),
         "C14" => c14::cases(tier, seed),
         "C15" => c15::cases(tier, seed),
         "C16" => c16::cases(tier, seed),
